@@ -3,6 +3,7 @@
 package main
 
 import (
+	"os"
 	"fmt"
 	"strings"
 	"time"
@@ -354,6 +355,46 @@ func splitBrainScenario(r *rng, viol func(clause, sig, detail string)) *simResul
 		desc: map[string]any{"scenario": "split-brain at the quorum boundary", "nodes": 3, "powers": pw, "byzantine": byz, "votes": len(g.votes), "byz_votes": bv, "max_round": g.maxRound(), "all_decided": decided}}
 }
 
+// byte-scale storage powers (hundreds to thousands of TiB, as on mainnet): the 16-bit scaled powers that every quorum tally
+// uses are derived from them; no Byzantine member, honest inputs fork, random delays, then a timely phase.  Agreement and
+// the sanity of the scaled table (0 <= scaled power, sum <= 0xffff, order preserved) are monitored.
+func largePowerScenario(r *rng, viol func(clause, sig, detail string)) *simResult {
+	n := 3 + r.intn(3)
+	powers := make([]int64, n)
+	for i := range powers {
+		powers[i] = int64(100+r.intn(4000)) << 40 // TiB in bytes
+	}
+	inputs := genInputs(r, n)
+	cfg := gnetCfg{n: n, powers: powers, byz: make([]bool, n), inputs: inputs, delta: 2 * time.Second}
+	if r.bool() {
+		cfg.maxDelay = 7 * time.Second
+	}
+	g := newGnet(r, cfg, viol)
+	var sum int64
+	for i, sp := range g.pt.ScaledPower {
+		sum += sp
+		if sp < 0 || sp > 0xffff {
+			viol("quorum tallies use scaled powers in [0, 0xffff]", "c01-scaled-power-out-of-range", fmt.Sprintf("entry %d: raw %s scaled %d", i, g.pt.Entries[i].Power, sp))
+		}
+		if i > 0 && g.pt.Entries[i-1].Power.Int.Cmp(g.pt.Entries[i].Power.Int) > 0 && g.pt.ScaledPower[i-1] < sp {
+			viol("scaling preserves the order of the powers", "c01-scaled-power-order", fmt.Sprintf("entries %d,%d: raw %s > %s but scaled %d < %d", i-1, i, g.pt.Entries[i-1].Power, g.pt.Entries[i].Power, g.pt.ScaledPower[i-1], sp))
+		}
+	}
+	if sum != g.pt.ScaledTotal || sum > 0xffff || sum <= 0 {
+		viol("the scaled total is the sum of the scaled powers and at most 0xffff", "c01-scaled-total", fmt.Sprintf("sum %d total %d", sum, g.pt.ScaledTotal))
+	}
+	for i := range g.nodes {
+		g.start(i)
+	}
+	g.run(300+r.intn(600), nil)
+	g.stabilised = true
+	roundAtStab := g.maxRound()
+	decided := g.run(60000, nil)
+	g.checkDecisions()
+	return &simResult{g: g, decided: decided, byzVotes: 0, roundAtStab: roundAtStab, budget: !decided,
+		desc: map[string]any{"scenario": "byte-scale storage powers", "nodes": n, "powers": powers, "scaled": g.pt.ScaledPower, "votes": len(g.votes), "max_round": g.maxRound(), "all_decided": decided}}
+}
+
 // network-trace scenario: every honest member begins the instance at time 0 (so that nothing is queued inside a participant
 // before its instance exists), then an adversarial prefix (random delays, Byzantine traffic), then a timely phase.  The whole
 // execution is recorded as a schedule of the Layer-N network model (RefineNet): starts, deliveries of the messages the real
@@ -520,7 +561,31 @@ func foreignSwayScenario(r *rng, viol func(clause, sig, detail string)) *simResu
 			deaf[i] = true
 		}
 	}
+	// variant: ONE honest participant lags -- only the COMMIT and CONVERGE messages addressed to it are slow, the others
+	// move on with the Byzantine member's help (it commits bottom with them); the laggard then sees, for the next round,
+	// only the Byzantine CONVERGE (foreign value justified by the COMMIT-bottom quorum) plus a weak quorum of PREPAREs and
+	// skips ahead: it must NOT adopt the foreign value
+	lagVariant := r.chance(50)
+	var laggards []int // lagVariant: the honest participant that lags in round r is laggards[r % len]
+	if lagVariant {
+		for _, i := range shuffled(r, n) {
+			if i != b {
+				laggards = append(laggards, i)
+			}
+		}
+	}
+	lagAt := func(round uint64) int { return laggards[int(round%uint64(len(laggards)))] }
 	g.slow = func(from, to int, msg *gpbft.GMessage) bool {
+		if lagVariant {
+			// everything the others send in round r, and their CONVERGEs of round r+1, reach the laggard of round r late: of
+			// round r+1 it first sees the Byzantine CONVERGE and the others' PREPAREs, and skips ahead (skipToRound)
+			if msg.Vote.Phase == gpbft.DECIDE_PHASE {
+				return false
+			}
+			return to == lagAt(msg.Vote.Round) ||
+				(msg.Vote.Phase == gpbft.CONVERGE_PHASE && msg.Vote.Round > 0 && to == lagAt(msg.Vote.Round-1)) ||
+				(msg.Vote.Phase == gpbft.QUALITY_PHASE && deaf[to])
+		}
 		return msg.Vote.Phase == gpbft.COMMIT_PHASE || (msg.Vote.Phase == gpbft.QUALITY_PHASE && deaf[to])
 	}
 	bz := g.nodes[b]
@@ -593,6 +658,9 @@ func foreignSwayScenario(r *rng, viol func(clause, sig, detail string)) *simResu
 		round := msg.Vote.Round
 		switch {
 		case msg.Vote.Phase == gpbft.COMMIT_PHASE && msg.Vote.Value.IsZero():
+			if lagVariant {
+				emit(round, gpbft.COMMIT_PHASE, bottom, nil) // the Byzantine member commits bottom with the others
+			}
 			if j := aggregate(round, gpbft.COMMIT_PHASE, bottom); j != nil {
 				emit(round+1, gpbft.CONVERGE_PHASE, foreign, j)
 				emit(round+1, gpbft.PREPARE_PHASE, foreign, j)
@@ -621,8 +689,24 @@ func foreignSwayScenario(r *rng, viol func(clause, sig, detail string)) *simResu
 			dl = true
 		}
 	}
+	hf := 0
+	for _, v := range g.votes {
+		if v.honest && v.msg.Vote.Value.Eq(foreign) {
+			hf++
+		}
+	}
+	if os.Getenv("VERIF_DEBUG_SWAY") != "" && lagVariant {
+		fmt.Fprintf(os.Stderr, "--- sway run: byz=%d laggards=%v\n", b, laggards)
+		for _, v := range g.votes {
+			val := "bottom"
+			if !v.msg.Vote.Value.IsZero() {
+				val = string(v.msg.Vote.Value.Head().Key)
+			}
+			fmt.Fprintf(os.Stderr, "  node%d r%d %s %s just=%v\n", v.sender, v.msg.Vote.Round, v.msg.Vote.Phase, val, v.msg.Justification != nil)
+		}
+	}
 	return &simResult{g: g, decided: decided, byzVotes: bv, roundAtStab: roundAtStab, deadlock: dl && !decided, budget: !decided && !dl,
-		desc: map[string]any{"scenario": "foreign-value sway via CONVERGE justified by COMMIT-bottom", "nodes": n, "powers": pw, "byzantine": byz, "votes": len(g.votes), "byz_votes": bv, "max_round": g.maxRound(), "all_decided": decided}}
+		desc: map[string]any{"scenario": "foreign-value sway via CONVERGE justified by COMMIT-bottom", "rotating_laggards": laggards, "honest_votes_for_the_foreign_value": hf, "nodes": n, "powers": pw, "byzantine": byz, "votes": len(g.votes), "byz_votes": bv, "max_round": g.maxRound(), "all_decided": decided}}
 }
 
 func shuffled(r *rng, n int) []int {
@@ -655,6 +739,8 @@ func runSpecSim(o *out, r *rng, thorough bool, pid string) {
 		var res *simResult
 		if i%6 == 5 {
 			res = splitBrainScenario(r, viol)
+		} else if i%12 == 4 {
+			res = largePowerScenario(r, viol)
 		} else if i%6 == 2 {
 			res = foreignSwayScenario(r, viol)
 		} else {
